@@ -97,11 +97,11 @@ func runC06(c *Ctx) {
 	c.lenIVFlowB()
 	c.subrsTableB()
 	c.lenIVGuards()
-	c.seacRules()
+	c.seacRulesX4() // ext_x4.go: the assembly of the composites, in Read or in helpers
 	c.shareCopyRule("type1", "T1-SHARECOPY")
 	c.glyphOpSwitches()
 	c.glyphOpLiterals()
-	c.containerDetection()
+	c.containerDetectionX4() // ext_x4.go: decision table over the first byte
 }
 
 func nodeString(c *Ctx, n ast.Node) string {
@@ -282,7 +282,8 @@ func (c *Ctx) readDefaults() {
 	}{{"BlueScale", 0.039625}, {"BlueShift", 7}, {"BlueFuzz", 1}} {
 		var consts []float64
 		n := 0
-		eachInstr(read, func(ins ssa.Instruction) {
+		// (the record may be filled in by Read itself or by a function it hands the dictionary to)
+		c.eachInstrDeep(read, 4, func(ins ssa.Instruction) {
 			if st, ok := ins.(*ssa.Store); ok && isFieldAddr(st.Addr, privT, d.key) {
 				n++
 				consts = append(consts, c.constSources(st.Val)...)
@@ -333,176 +334,6 @@ func (c *Ctx) readDefaults() {
 	// (decided on the SSA form, ext_w2.go: the loop may live in Read or in a helper)
 	okND, whyND := c.notdefMappingW2(read)
 	c.check(okND, "T1-DEFAULTS", fname, "codes of absent glyphs are mapped to .notdef", fd.Pos(), "Font.Encoding[i] = .notdef iff Font.Encoding[i] is not a key of Font.Glyphs", "encoding entries naming glyphs that are not in the font are no longer mapped to .notdef: "+whyND)
-}
-
-func (c *Ctx) seacRules() {
-	f := c.fn("type1", "Read")
-	fname := c.fname(f)
-	stdEnc := c.spkgs[shortPkg["psenc"]].Var("StandardEncoding")
-	// seac lookups index StandardEncoding
-	nStd := 0
-	bounded := true
-	eachInstr(f, func(ins ssa.Instruction) {
-		ix, ok := ins.(*ssa.IndexAddr)
-		if !ok || ix.X != ssa.Value(stdEnc) {
-			return
-		}
-		nStd++
-		conds := domConds(ix.Block())
-		is := func(v ssa.Value) bool { return sameValue(v, ix.Index) }
-		ub, okU := upperBoundConst(conds, is)
-		lb, okL := lowerBoundConst(conds, is)
-		if !okU || !okL || lb < 0 || ub > 255 {
-			bounded = false
-		}
-	})
-	c.check(nStd == 2 && bounded, "T1-SEAC", fname, "bchar and achar are codes in StandardEncoding, both range-checked", f.Pos(), "psenc.StandardEncoding[base], [accent] under 0 <= code <= 255", fmt.Sprintf("seac components are not looked up as codes in StandardEncoding (lookups: %d, both bounded to 0..255: %v); a font with its own encoding array would get wrong or empty composites", nStd, bounded))
-	// the composite copies the base commands, does not alias them
-	glyphT := c.typeObj("type1", "Glyph")
-	alias := ""
-	eachInstr(f, func(ins ssa.Instruction) {
-		st, ok := ins.(*ssa.Store)
-		if !ok || !isFieldAddr(st.Addr, glyphT, "Cmds") {
-			return
-		}
-		v := st.Val
-		if sl, ok := v.(*ssa.Slice); ok {
-			v = sl.X
-		}
-		if isFieldLoad(v, glyphT, "Cmds") {
-			dst, _, _ := fieldAddrOf(st.Addr)
-			src, _, _ := fieldOf(origin(v))
-			if dst != src {
-				alias = c.pos(st.Pos())
-			}
-		}
-	})
-	c.check(alias == "", "T1-SEAC", fname, "the composite gets its own copy of the base glyph's commands", f.Pos(), "append(g.Cmds[:0], base.Cmds...)", "the composite glyph shares the command slice of its base glyph ("+alias+"): appending the accent then overwrites the commands of other composites built on the same base")
-	// the accent's commands are translated for every command kind: one pass of the loop over the
-	// accent's commands is evaluated on the SSA form for each kind
-	var H *ssa.BasicBlock
-	opF := false
-	for _, b := range f.Blocks {
-		isHeader := false
-		for _, p := range b.Preds {
-			if b.Dominates(p) {
-				isHeader = true
-			}
-		}
-		if !isHeader {
-			continue
-		}
-		// the innermost loop that reads the Op of a GlyphOp
-		hasOp := false
-		for _, q := range f.Blocks {
-			if !b.Dominates(q) || !reachesBlock(q, b) {
-				continue
-			}
-			for _, ins := range q.Instrs {
-				if fa, ok := ins.(*ssa.FieldAddr); ok {
-					if st, ok := fa.X.Type().Underlying().(*types.Pointer).Elem().Underlying().(*types.Struct); ok && st.Field(fa.Field).Name() == "Op" && strings.HasSuffix(fa.X.Type().String(), "type1.GlyphOp") {
-						hasOp = true
-					}
-				}
-			}
-		}
-		if hasOp && (H == nil || H.Dominates(b)) {
-			H = b
-			opF = true
-		}
-	}
-	if !opF {
-		c.undecided("T1-SEAC", fname, "accent loop", f.Pos(), "the loop over the accent's commands was not found")
-		return
-	}
-	seacT := c.typeObj("type1", "seacInfo").Type().Underlying().(*types.Struct)
-	var offs []string
-	for i := 0; i < seacT.NumFields(); i++ {
-		if bt, ok := seacT.Field(i).Type().Underlying().(*types.Basic); ok && bt.Kind() == types.Float64 {
-			offs = append(offs, seacT.Field(i).Name())
-		}
-	}
-	var bad []string
-	for name, nargs := range map[string]int{"OpMoveTo": 2, "OpLineTo": 2, "OpCurveTo": 6, "OpClosePath": 0} {
-		opv := c.constInt("type1", name)
-		ev := &ssaEval{c: c, bind: map[ssa.Value]sv{}, mem: map[string]sv{}}
-		var appended []string
-		ev.load = func(ld *ssa.UnOp, addr sv) (sv, bool) {
-			a := addr.s
-			switch {
-			case strings.HasSuffix(a, ".Op"):
-				return intV(opv), true
-			case strings.Contains(a, ".Args["):
-				return symV("A" + strings.TrimSuffix(a[strings.LastIndex(a, "[")+1:], "]")), true
-			case strings.HasSuffix(a, ".Args"):
-				return sv{k: svAddr, s: "cmd.Args"}, true
-			case len(offs) == 2 && strings.HasSuffix(a, "."+offs[0]):
-				return symV("dx"), true
-			case len(offs) == 2 && strings.HasSuffix(a, "."+offs[1]):
-				return symV("dy"), true
-			}
-			return symV("v:" + a), true
-		}
-		ev.call = func(call ssa.CallInstruction, args []sv) (sv, bool) {
-			if callName(call) == "builtin append" && len(args) == 2 {
-				appended = append(appended, ev.render(args[1]))
-				return symV("cmds"), true
-			}
-			return sv{}, false
-		}
-		fr := &frame{vals: map[ssa.Value]sv{}}
-		if ifi, ok := H.Instrs[len(H.Instrs)-1].(*ssa.If); ok {
-			ev.bind[ifi.Cond] = boolV(reachesBlock(H.Succs[0], H))
-		}
-		for _, ins := range H.Instrs {
-			if phi, ok := ins.(*ssa.Phi); ok {
-				fr.vals[phi] = symV("idx")
-			}
-		}
-		// offsets loaded before the loop (hoisted into locals) are the same symbols
-		eachInstr(f, func(ins ssa.Instruction) {
-			if ld, ok := ins.(*ssa.UnOp); ok && ld.Op == token.MUL {
-				if fa, ok := ld.X.(*ssa.FieldAddr); ok {
-					if st, ok := fa.X.Type().Underlying().(*types.Pointer).Elem().Underlying().(*types.Struct); ok && types.Identical(st, seacT) && len(offs) == 2 {
-						switch st.Field(fa.Field).Name() {
-						case offs[0]:
-							ev.bind[ld] = symV("dx")
-						case offs[1]:
-							ev.bind[ld] = symV("dy")
-						}
-					}
-				}
-			}
-		})
-		back := false
-		ev.runBlocks(fr, H, nil, func(next, from *ssa.BasicBlock) bool {
-			if next == H {
-				back = true
-			}
-			return next == H
-		})
-		var wantArgs []string
-		for k := 0; k < nargs; k++ {
-			off := "dx"
-			if k%2 == 1 {
-				off = "dy"
-			}
-			wantArgs = append(wantArgs, fmt.Sprintf("+(A%d,%s)", k, off))
-		}
-		want := fmt.Sprintf("[{Args:[%s],Op:%d}]", strings.Join(wantArgs, " "), opv)
-		if nargs == 0 {
-			want = fmt.Sprintf("[{Op:%d}]", opv)
-		}
-		got := strings.Join(appended, " ")
-		if nargs == 0 && got == fmt.Sprintf("[{Args:nil,Op:%d}]", opv) {
-			got = want
-		}
-		if !back || got != want {
-			bad = append(bad, fmt.Sprintf("%s of the accent becomes %s, expected %s %s", name, got, want, ev.why))
-		}
-	}
-	sort.Strings(bad)
-	c.check(len(bad) == 0 && len(offs) == 2, "T1-SEAC", fname, "every command of the accent is kept and every coordinate translated by (adx, ady), x by dx and y by dy", f.Pos(), "move, line, curve, closepath evaluated", "seac: "+joinMax(bad, 2))
 }
 
 // glyphOpLiterals: every GlyphOp literal has the number of arguments its command needs.
@@ -556,29 +387,6 @@ func (c *Ctx) glyphOpLiterals() {
 	c.floor("T1-GLYPHOPLIT", 8)
 }
 
-func (c *Ctx) containerDetection() {
-	f := c.fn("type1", "Read")
-	ok := false
-	eachInstr(f, func(ins ssa.Instruction) {
-		bo, isB := ins.(*ssa.BinOp)
-		if !isB || bo.Op != token.EQL {
-			return
-		}
-		if k, isC := constInt(bo.Y); isC && k == 0x80 {
-			if ld, isL := bo.X.(*ssa.UnOp); isL {
-				if ix, isI := ld.X.(*ssa.IndexAddr); isI {
-					if k0, isC0 := constInt(ix.Index); isC0 && k0 == 0 {
-						ok = true
-					}
-				}
-			}
-		}
-	})
-	decode := c.fn("pfb", "Decode")
-	usesDecode := len(staticCalls(f, decode)) == 1
-	c.check(ok && usesDecode, "T1-CONTAINER", c.fname(f), "first byte 0x80 selects the PFB decoder", f.Pos(), "head[0] == 0x80 → pfb.Decode", "container detection no longer tests the first byte against 0x80 before wrapping the input in the PFB decoder")
-}
-
 // t1CommandClauses returns the case clauses of the charstring command switch by opcode constant name.
 func (c *Ctx) t1CommandClauses() (map[string]*ast.CaseClause, *types.Info) {
 	info := c.info("type1")
@@ -615,9 +423,13 @@ func (c *Ctx) t1CommandClauses() (map[string]*ast.CaseClause, *types.Info) {
 func (c *Ctx) constSources(v ssa.Value) []float64 {
 	seen := map[string]bool{}
 	set := map[float64]bool{}
-	var walk func(v ssa.Value, at *ssa.BasicBlock, ctx []ssa.CallInstruction, depth int)
-	// underOK: block at is only reached when the last (boolean) result of call is true
-	underOK := func(call *ssa.Call, at *ssa.BasicBlock) bool {
+	var walk func(v ssa.Value, at, to *ssa.BasicBlock, ctx []ssa.CallInstruction, depth int)
+	// the edge through which a value is used: the operand of a phi is used on the edge from the
+	// predecessor `at` into the phi's block (`x, ok := f(); if !ok { x = default }` uses x on the
+	// edge of the `ok` outcome, not in a block of its own)
+	// underOK: block at (or the edge from at into the phi the value feeds) is only reached when the
+	// last (boolean) result of call is true
+	underOK := func(call *ssa.Call, at *ssa.BasicBlock, to *ssa.BasicBlock) bool {
 		tup, ok := call.Type().(*types.Tuple)
 		if !ok || tup.Len() < 2 || at == nil || call.Referrers() == nil {
 			return false
@@ -633,7 +445,11 @@ func (c *Ctx) constSources(v ssa.Value) []float64 {
 			}
 			for _, u := range *ex.Referrers() {
 				if ifi, ok := u.(*ssa.If); ok {
-					if tb := ifi.Block().Succs[0]; len(tb.Preds) == 1 && tb.Parent() == at.Parent() && tb.Dominates(at) {
+					tb := ifi.Block().Succs[0]
+					if len(tb.Preds) == 1 && tb.Parent() == at.Parent() && tb.Dominates(at) {
+						return true
+					}
+					if to != nil && ifi.Block() == at && tb == to && ifi.Block().Succs[1] != to {
 						return true
 					}
 				}
@@ -661,12 +477,12 @@ func (c *Ctx) constSources(v ssa.Value) []float64 {
 					continue
 				}
 			}
-			walk(r.Results[idx], r.Block(), sub, depth+1)
+			walk(r.Results[idx], r.Block(), nil, sub, depth+1)
 		}
 	}
-	walk = func(v ssa.Value, at *ssa.BasicBlock, ctx []ssa.CallInstruction, depth int) {
+	walk = func(v ssa.Value, at, to *ssa.BasicBlock, ctx []ssa.CallInstruction, depth int) {
 		v = origin(v)
-		key := fmt.Sprintf("%p@%p", v, at)
+		key := fmt.Sprintf("%p@%p>%p", v, at, to)
 		for _, in := range ctx {
 			key += fmt.Sprintf("|%p", in)
 		}
@@ -682,19 +498,19 @@ func (c *Ctx) constSources(v ssa.Value) []float64 {
 			}
 		case *ssa.Phi:
 			for i, e := range x.Edges {
-				walk(e, x.Block().Preds[i], ctx, depth+1)
+				walk(e, x.Block().Preds[i], x.Block(), ctx, depth+1)
 			}
 		case *ssa.Convert:
-			walk(x.X, at, ctx, depth+1)
+			walk(x.X, at, to, ctx, depth+1)
 		case *ssa.ChangeType:
-			walk(x.X, at, ctx, depth+1)
+			walk(x.X, at, to, ctx, depth+1)
 		case *ssa.MakeInterface:
-			walk(x.X, at, ctx, depth+1)
+			walk(x.X, at, to, ctx, depth+1)
 		case *ssa.Call:
 			results(x, 0, false, ctx, depth)
 		case *ssa.Extract:
 			if call, ok := x.Tuple.(*ssa.Call); ok {
-				results(call, x.Index, underOK(call, at), ctx, depth)
+				results(call, x.Index, underOK(call, at, to), ctx, depth)
 			}
 		case *ssa.Parameter:
 			fn := x.Parent()
@@ -707,14 +523,14 @@ func (c *Ctx) constSources(v ssa.Value) []float64 {
 			if n := len(ctx); n > 0 && ctx[n-1].Common().StaticCallee() == fn {
 				// back to the call the walk came through
 				if args := ctx[n-1].Common().Args; idx >= 0 && idx < len(args) {
-					walk(args[idx], ctx[n-1].Block(), ctx[:n-1], depth+1)
+					walk(args[idx], ctx[n-1].Block(), nil, ctx[:n-1], depth+1)
 				}
 				return
 			}
 			for _, g := range c.modFuncs {
 				for _, call := range staticCalls(g, fn) {
 					if idx >= 0 && idx < len(call.Common().Args) {
-						walk(call.Common().Args[idx], call.Block(), nil, depth+1)
+						walk(call.Common().Args[idx], call.Block(), nil, nil, depth+1)
 					}
 				}
 			}
@@ -723,7 +539,7 @@ func (c *Ctx) constSources(v ssa.Value) []float64 {
 			if al, ok := x.X.(*ssa.Alloc); ok && x.Op == token.MUL {
 				for _, r := range *al.Referrers() {
 					if st, ok := r.(*ssa.Store); ok && st.Addr == ssa.Value(al) {
-						walk(st.Val, st.Block(), ctx, depth+1)
+						walk(st.Val, st.Block(), nil, ctx, depth+1)
 					}
 				}
 			}
@@ -743,7 +559,7 @@ func (c *Ctx) constSources(v ssa.Value) []float64 {
 			at = nil
 		}
 	}
-	walk(v, at, nil, 0)
+	walk(v, at, nil, nil, 0)
 	var out []float64
 	for f := range set {
 		out = append(out, f)
